@@ -60,6 +60,22 @@ def fixed_scenarios():
     for e in ("i1", "absent", "s1"):            # the torrent is loaded from its resume record by a new session
         add(enc=e, steps=[S("restart"), S("in", "in1"), S("pex", "out", "a"), S("magnet")])
     add(enc="i1", dht=True, steps=[S("restart"), S("port", "out")])
+    # the torrent is loaded by a new session from a resume record in each state (no bitfield: added stopped / partial / complete)
+    for e in ("i1", "absent", "s1", "list"):
+        for rs in ("nobf", "partial", "full"):
+            add(enc=e, resume=rs, steps=[S("in", "in1"), S("magnet")] + ([S("addtracker")] if rs == "nobf" else []))
+    add(enc="i1", resume="nobf", steps=[S("stop"), S("restart"), S("start"), S("magnet")])
+    add(enc="i1", steps=[S("stop"), S("restart"), S("magnet"), S("start"), S("in", "in1")])
+    # Magnet() in every life-cycle state of the handle: before the metadata, running, stopped, removed, session closed, racing a removal
+    for e in ("i1", "absent", "s1", "dict"):
+        add(enc=e, steps=[S("magnet"), S("stop"), S("magnet"), S("start"), S("remove"), S("magnet")])
+        add(enc=e, steps=[S("in", "in1"), S("close"), S("magnet")])
+        add(enc=e, steps=[S("magnetrace"), S("magnet")])
+        add(enc=e, resume="nobf", steps=[S("stop"), S("remove"), S("magnet")])
+    for e in ("i1", "absent"):
+        add(enc=e, mode="magnet", pre=[S("magnet")], steps=[S("magnet"), S("remove"), S("magnet")])
+        add(enc=e, mode="magnet", pre=[S("magnet")], steps=[S("close"), S("magnet")])
+        add(enc=e, resume="full", steps=[S("magnetrace")])
     return out
 
 
@@ -77,10 +93,12 @@ def generated_scenarios(ctx, rng, n, ndht):
         dht = i < ndht
         mode = "magnet" if rng.random() < 0.25 else "file"
         sc = {"enc": enc, "pex": rng.random() < 0.8, "dht": dht, "mode": mode, "steps": [dict(s) for s in h], "dhtbit": rng.random() < 0.3}
+        if mode == "file" and not dht and rng.random() < 0.3:
+            sc["resume"] = rng.choice(["nobf", "nobf", "partial", "full"])
         if dht and mode == "file" and rng.random() < 0.4:
             sc["sibling"] = True
         if mode == "magnet" and rng.random() < 0.4:
-            sc["pre"] = [S("pex", "out", rng.choice(["a", "d", "ad"]))]
+            sc["pre"] = [S("pex", "out", rng.choice(["a", "d", "ad"]))] + ([S("magnet")] if rng.random() < 0.5 else [])
         out.append(sc)
     return out
 
@@ -172,6 +190,12 @@ def project(raw_path, info):
             tprev = e["t_ms"]
             if k in ("start", "stop", "trkreply", "addpeer", "sibling", "dhtvalues"):
                 a.append({"ev": k})
+            elif k == "reload":
+                a.append({"ev": "reload", "bf": e["bf"] == 1})
+                fact.setdefault("reloads", []).append(e["bf"])
+            elif k == "gone":
+                a.append({"ev": "gone", "how": e["how"]})
+                fact.setdefault("gone", []).append(e["how"])
             elif k == "conn" and e["dir"] == "in":
                 a.append({"ev": "conn_in"})
             elif k == "exths_tx":
@@ -233,8 +257,8 @@ def reorder_inflight(a):
 
 
 def sc_class(sc):
-    return "enc=%s mode=%s pex=%d dht=%d sib=%d steps=%s" % (sc["enc"], sc.get("mode", "file"), sc.get("pex", False), sc.get("dht", False),
-                                                           sc.get("sibling", False),
+    return "enc=%s mode=%s pex=%d dht=%d sib=%d resume=%s steps=%s" % (sc["enc"], sc.get("mode", "file"), sc.get("pex", False), sc.get("dht", False),
+                                                           sc.get("sibling", False), sc.get("resume") or "-",
                                                            ",".join(":".join(x for x in (s["do"], s.get("peer", ""), s.get("k", "")) if x)
                                                                     for s in (sc.get("pre") or []) + [S("|")] + sc["steps"]))
 
@@ -243,7 +267,9 @@ def run(ctx):
     ctx.level = "model_checking"
     ctx.cov["rule"] = ("scenario = encoding of the private key x (file | magnet) x PEX switch x DHT switch x sibling magnet x message history "
                        "(TLC-generated: AddPeer, incoming peers, PEX added/dropped from each connected peer, port messages, Magnet(), re-announce, "
-                       "stop/start, AddTracker); every scripted peer advertises ut_pex; non-trivial = the torrent is private by the fail-safe "
+                       "stop, start, stop/start, AddTracker, restart = Session.Close + NewSession on the same database, RemoveTorrent / Session.Close with the handle kept, "
+                       "Magnet() racing RemoveTorrent) x state of the resume record a new session loads the torrent from (none / no bitfield / partial / complete); "
+                       "every scripted peer advertises ut_pex; non-trivial = the torrent is private by the fail-safe "
                        "reading of its encoding; distinct = distinct (encoding, mode, switches, history) tuples")
     ctx.assumptions += ["address sources are told apart by the listener a connection arrives at: the tracker's, the user's, the PEX added / dropped and the "
                         "DHT stub's address each have their own 127.0.0.x listener",
@@ -261,7 +287,7 @@ def run(ctx):
         with lock:
             return orig_copy()
     ctx._spec_copy = locked_copy
-    with cf.ThreadPoolExecutor(max_workers=4) as ex:
+    with cf.ThreadPoolExecutor(max_workers=6) as ex:
         futs = []
         if not os.environ.get("VERIF_C19_NOMC"):      # development switch: skip the design-level runs
             futs = design_level(ctx, ex)
@@ -272,7 +298,8 @@ def run(ctx):
 
 def design_level(ctx, ex):
     futs = [ex.submit(ctx.tlc_mc, "MC_Private", ctx.pick("MC_Private.cfg", "MC_Private_h6.cfg"), 1800, ctx.pick(6, 8))]
-    asis = ctx.pick(["pexrecv", "dhtrecv", "pending"], ["pexrecv", "dhtrecv", "pending", "adopt", "pexsend", "dhtstart", "magnet"])
+    asis = ctx.pick(["pexrecv", "dhtrecv", "pending", "loadident", "magnetgone"],
+                    ["pexrecv", "dhtrecv", "pending", "adopt", "pexsend", "dhtstart", "magnet", "loadident", "magnetgone"])
     noticed = {}
     ctx.extra["guards_noticed_by_invariant"] = noticed
 
@@ -327,6 +354,29 @@ def scenarios_level(ctx):
     if len(abstract) < 0.9 * (len(scs) - sum(1 for f in info.values() if f["adderr"] is not None)):
         raise vlib.MachineryError("only %d of %d scenarios produced a judgeable trace" % (len(abstract), len(scs)))
     # controls: the windows and the scripted environment do show each behaviour on torrents that may show it
+    # life-cycle states really reached (a reload of a record WITHOUT bitfield is the state in which nothing but the info dict tells
+    # the loader that the torrent is private)
+    lc = {"reload_nobitfield_private": 0, "reload_bitfield_private": 0, "reload_unreadable": 0, "gone_private": {}, "magnet_calls_private": {}}
+    for sid, f in info.items():
+        if not f.get("priv"):
+            continue
+        for b in f.get("reloads", []):
+            lc["reload_nobitfield_private" if b == 0 else "reload_bitfield_private" if b == 1 else "reload_unreadable"] += 1
+        for h in f.get("gone", []):
+            lc["gone_private"][h] = lc["gone_private"].get(h, 0) + 1
+    for sid, evs in abstract.items():
+        if not evs[0]["priv"]:
+            continue
+        st = "before-metadata" if evs[0]["mode"] == "magnet" else "running"
+        for e in evs[1:]:
+            if e["ev"] == "stop": st = "stopped"
+            elif e["ev"] == "start": st = "running" if st != "before-metadata" else st
+            elif e["ev"] == "meta": st = {"adopted": "running", "refused": "refused"}.get(e["outcome"], st)
+            elif e["ev"] == "gone": st = "gone:" + e["how"]
+            elif e["ev"] == "magnet": lc["magnet_calls_private"][st] = lc["magnet_calls_private"].get(st, 0) + 1
+    ctx.extra["life_cycle_states_reached"] = lc
+    if lc["reload_nobitfield_private"] == 0 or lc["reload_bitfield_private"] == 0 or len(lc["gone_private"]) < 3:
+        raise vlib.MachineryError("life-cycle states not reached by the scenarios: %s" % lc)
     ctl = {"pex_dial_public": 0, "pex_sent_public": 0, "dht_query_public": 0, "dht_dial_public": 0, "magnet_ok_public": 0, "adopted_public": 0,
            "refused_private": 0, "magnet_err_private": 0, "tracker_dial_private": 0, "manual_dial_private": 0}
     dropped_dialled = [0]
@@ -354,6 +404,8 @@ def scenarios_level(ctx):
             if k == "magnet": ctx.oblig("C19.magnet")
             if k == "meta": ctx.oblig("C19.metadata")
             if k == "ident": ctx.oblig("C19.identity")
+            if k == "reload": ctx.oblig("C19.identity(reload)")
+            if k == "gone": ctx.oblig("C19.magnet(gone)")
             if k == "obs": ctx.oblig("C19.flag/obs")
         ctx.count_case(sc_class(by_id[sid]), nontrivial)
     ctx.extra["controls"] = ctl
@@ -394,14 +446,20 @@ def scenarios_level(ctx):
         before = abstract[sid][:pos]
         pexfrom = sorted({e["p"] for e in before if e["ev"] == "pexmsg"})
         refused = any(e["ev"] == "meta" and e["outcome"] == "refused" for e in before)
+        life = "-"
+        for e in before:
+            if e["ev"] == "reload": life = "reloaded:" + ("bitfield" if e["bf"] else "nobitfield")
+            elif e["ev"] == "gone": life = "gone:" + e["how"]
+            elif e["ev"] == "stop" and not life.startswith("gone"): life = "stopped"
+            elif e["ev"] == "start" and life == "stopped": life = "-"
         bads = [""]
         if ev["ev"] == "obs" and tag == "C19.sources.connected":
             bads = [s for s in ev["srcs"] if s not in ("tracker", "manual", "incoming")] or [""]
         for bad in bads:
-            sig = "tag=%s mode=%s reading=%s pex=%d dht=%d sibling=%d ev=%s src=%s q=%s what=%s cls=%s pexfrom=%s dhtvalues=%d after=%s bad=%s" % (
+            sig = "tag=%s mode=%s reading=%s pex=%d dht=%d sibling=%d ev=%s src=%s q=%s what=%s cls=%s pexfrom=%s dhtvalues=%d after=%s bad=%s life=%s" % (
                 tag, ini["mode"], ini["encv"], ini["pex"], ini["dht"], ini["sibling"], ev["ev"], ev.get("src", "-"),
                 ev.get("q", "-"), ev.get("what", "-"), ev.get("cls", "-"), "+".join(pexfrom) or "-",
-                any(e["ev"] == "dhtvalues" for e in before), "refused" if refused else "-", bad or "-")
+                any(e["ev"] == "dhtvalues" for e in before), "refused" if refused else "-", bad or "-", life)
             if (sig, tag) in seen:
                 continue
             seen.add((sig, tag))
